@@ -44,6 +44,7 @@ static int update_v_t8(vnacal_new_solve_state_t *vnssp, int idx,
     const int m_rows    = VL_M_ROWS(vlp);
     const int m_columns = VL_M_COLUMNS(vlp);
     double complex vi_matrix[m_columns * m_columns];
+    double complex determinant;
     int base = 0;
     int tx_base, tm_base;
 
@@ -93,8 +94,9 @@ static int update_v_t8(vnacal_new_solve_state_t *vnssp, int idx,
 	    }
 	}
     }
-    if (_vnacommon_minverse(vnmmp->vnsm_v_matrices[0],
-	    vi_matrix, m_columns) == 0.0) {
+    determinant = _vnacommon_minverse(vnmmp->vnsm_v_matrices[0],
+	    vi_matrix, m_columns);
+    if (determinant == 0.0 || !isnormal(cabs(determinant))) {
 	return -1;
     }
     return 0;
@@ -117,6 +119,7 @@ static int update_v_u8(vnacal_new_solve_state_t *vnssp, int idx,
     const int m_rows    = VL_M_ROWS(vlp);
     const int m_columns = VL_M_COLUMNS(vlp);
     double complex vi_matrix[m_rows * m_rows];
+    double complex determinant;
     int base = 0;
     int um_base, ux_base;
 
@@ -166,8 +169,9 @@ static int update_v_u8(vnacal_new_solve_state_t *vnssp, int idx,
 	    }
 	}
     }
-    if (_vnacommon_minverse(vnmmp->vnsm_v_matrices[0],
-	    vi_matrix, m_rows) == 0.0) {
+    determinant = _vnacommon_minverse(vnmmp->vnsm_v_matrices[0],
+	    vi_matrix, m_rows);
+    if (determinant == 0.0 || !isnormal(cabs(determinant))) {
 	return -1;
     }
     return 0;
@@ -190,6 +194,7 @@ static int update_v_t16(vnacal_new_solve_state_t *vnssp, int idx,
     const int m_rows    = VL_M_ROWS(vlp);
     const int m_columns = VL_M_COLUMNS(vlp);
     double complex vi_matrix[m_columns * m_columns];
+    double complex determinant;
     int base = 0;
     int tx_base, tm_base;
 
@@ -245,8 +250,9 @@ static int update_v_t16(vnacal_new_solve_state_t *vnssp, int idx,
 	    }
 	}
     }
-    if (_vnacommon_minverse(vnmmp->vnsm_v_matrices[0],
-	    vi_matrix, m_columns) == 0.0) {
+    determinant = _vnacommon_minverse(vnmmp->vnsm_v_matrices[0],
+	    vi_matrix, m_columns);
+    if (determinant == 0.0 || !isnormal(cabs(determinant))) {
 	return -1;
     }
     return 0;
@@ -269,6 +275,7 @@ static int update_v_u16(vnacal_new_solve_state_t *vnssp, int idx,
     const int m_rows    = VL_M_ROWS(vlp);
     const int m_columns = VL_M_COLUMNS(vlp);
     double complex vi_matrix[m_rows * m_rows];
+    double complex determinant;
     int base = 0;
     int um_base, ux_base;
 
@@ -322,8 +329,9 @@ static int update_v_u16(vnacal_new_solve_state_t *vnssp, int idx,
 
 	}
     }
-    if (_vnacommon_minverse(vnmmp->vnsm_v_matrices[0],
-	    vi_matrix, m_rows) == 0.0) {
+    determinant = _vnacommon_minverse(vnmmp->vnsm_v_matrices[0],
+	    vi_matrix, m_rows);
+    if (determinant == 0.0 || !isnormal(cabs(determinant))) {
 	return -1;
     }
     return 0;
@@ -346,6 +354,7 @@ static double complex update_v_ue14(vnacal_new_solve_state_t *vnssp, int idx,
     const vnacal_layout_t *vlp = &vnp->vn_layout;
     const int m_rows = VL_M_ROWS(vlp);
     double complex vi_matrix[m_rows * m_rows];
+    double complex determinant;
     int base = 0;
     int um_base, ux_base;
 
@@ -400,8 +409,9 @@ static double complex update_v_ue14(vnacal_new_solve_state_t *vnssp, int idx,
 	    }
 	}
     }
-    if (_vnacommon_minverse(vnmmp->vnsm_v_matrices[sindex],
-		vi_matrix, m_rows) == 0.0) {
+    determinant = _vnacommon_minverse(vnmmp->vnsm_v_matrices[sindex],
+		vi_matrix, m_rows);
+    if (determinant == 0.0 || !isnormal(cabs(determinant))) {
 	return -1;
     }
     assert(base == x_length);
